@@ -10,6 +10,16 @@ pid, src, sid = sys.argv[1], sys.argv[2], sys.argv[3]
 thorough = '--thorough' in sys.argv
 WT = '/tmp/wt-confirm-%s' % sid
 VERIF = os.path.dirname(os.path.dirname(os.path.abspath(__file__)))
+# --copy=<n>: run the check from a private copy of /verif (own lean/.lake, Generated tables, evidence, replays; the library cache is
+# shared), so that several confirmations can run side by side and nothing regenerated from a patched tree lands in /verif itself
+RUNDIR = VERIF
+for a in sys.argv[4:]:
+    if a.startswith('--copy='):
+        RUNDIR = '/tmp/verif-copy-%s' % a.split('=', 1)[1]
+        subprocess.run(['rsync', '-a', '--delete', '--exclude', '.git', '--exclude', '.cache', '--exclude', 'replays/*', VERIF + '/', RUNDIR + '/'], check=True)
+        if not os.path.exists(os.path.join(RUNDIR, '.cache')):
+            os.symlink(os.path.join(VERIF, '.cache'), os.path.join(RUNDIR, '.cache'))
+        os.makedirs(os.path.join(RUNDIR, 'replays'), exist_ok=True)
 
 
 def sh(cmd, **kw):
@@ -43,7 +53,7 @@ try:
     env = dict(os.environ, VERIF_REPO=WT)
     for tier in (['quick', 'thorough'] if thorough else ['quick']):
         t0 = time.time()
-        r = subprocess.run(['python3', 'check.py', pid, '--tier', tier], cwd=VERIF, env=env, stdout=subprocess.PIPE, stderr=subprocess.PIPE, text=True)
+        r = subprocess.run(['python3', 'check.py', pid, '--tier', tier], cwd=RUNDIR, env=env, stdout=subprocess.PIPE, stderr=subprocess.PIPE, text=True)
         vio = [l for l in r.stdout.splitlines() if l.startswith('VIOLATION')]
         meta['ran'].append({'cmd': 'VERIF_REPO=<patched worktree> python3 check.py %s --tier %s' % (pid, tier), 'exit': r.returncode,
                             'violation_lines': vio[:5], 'detail': [l for l in r.stderr.splitlines() if l.startswith('  ->')][:3],
@@ -60,7 +70,8 @@ os.makedirs(out, exist_ok=True)
 shutil.copy(os.path.join(src, 'patch.diff'), out)
 shutil.copy(demo, out)
 # evidence written by the check run against the patched tree must not stay behind
-subprocess.run(['git', 'checkout', '--', 'evidence/%s.json' % pid, 'lean/Generated'], cwd=VERIF, stderr=subprocess.DEVNULL)  # tables regenerated from the patched tree must not stay behind either
+if RUNDIR == VERIF:
+    subprocess.run(['git', 'checkout', '--', 'evidence/%s.json' % pid, 'lean/Generated'], cwd=VERIF, stderr=subprocess.DEVNULL)  # tables regenerated from the patched tree must not stay behind either
 json.dump(meta, open(os.path.join(out, 'meta.json'), 'w'), indent=1)
 print(json.dumps({k: meta[k] for k in ('seed_id', 'compiles_and_tests_pass', 'demo_discriminates', 'detected_by')}, indent=None))
 for x in meta['ran']:
